@@ -188,8 +188,12 @@ def run(rep):
     rep.proof, rep.broken = proof_step(PID)
     rng = random.Random(rep.seed)
     n = 250 if rep.tier == "quick" else 8000
-    cases = [c for _, c in load_corpus(PID)] + [gen_case(rng) for _ in range(n)]
+    corpus = [c for _, c in load_corpus(PID)]
+    cases = [c for c in corpus if "layers" in c] + [gen_case(rng) for _ in range(n)]
     evaluate(rep, cases)
+    import decodecheck
+    decodecheck.evaluate_streams(rep, [c["ystream"] for c in corpus if "ystream" in c])
+    decodecheck.evaluate(rep, [c["decode"] for c in corpus if "decode" in c])
     for sp in SPECIAL:
         o = run_special(sp)
         rep.case(sp["name"], True)
@@ -213,6 +217,9 @@ def replay(rep, payload):
     if "decode" in c:
         import decodecheck
         return 1 if decodecheck.evaluate(rep, [c["decode"]]) else 0
+    if "ystream" in c:
+        import decodecheck
+        return 1 if decodecheck.evaluate_streams(rep, [c["ystream"]]) else 0
     if "layers" in c:
         return 1 if evaluate(rep, [c]) else 0
     o = run_special(c)
